@@ -11,8 +11,12 @@
                           conjugate-invariant ring has no right half)
   * `roundToPrec`         `decodePublic`'s rounding to a multiple of `2^-logprec`
 
-  The float64 / big.Float FFT is not modelled: ties use inputs on which it is exact (one slot, or a
-  constant vector), everything else is a probe in `harness/c07_ckks.go`.
+  The butterfly network of the float64 / big.Float special FFT is not modelled.  Its exact-arithmetic
+  specification (evaluation at the odd powers of a primitive 2N-th root and the inverse transform) is
+  `Proofs/EncoderCFFT.lean` (`evalOdd`, `interpOdd`, mutually inverse).  The implementation is tied to the
+  model on inputs whose encoding is exactly determined: one slot / constant vectors (`encodeConst`, op
+  `encslot`) and slot vectors of integer polynomials (`encodePoly`, op `encpoly`: non-constant vectors, every
+  slot count, both rings); everything else is a probe in `harness/c07_ckks.go`.
 -/
 import Lattigo.Model.CKKS
 
